@@ -13,7 +13,7 @@ from sim.terms import XSD, T, key, skey, tkey, u
 
 ID = "C19"
 LEVEL = "exploration"
-TIERS = {"quick": {"runs": 6400, "wall_cap": 600}, "thorough": {"runs": 160000, "wall_cap": 3300}}
+TIERS = {"quick": {"runs": 9600, "wall_cap": 600}, "thorough": {"runs": 160000, "wall_cap": 3300}}
 RULE = (
     "each evaluation is one seeded history (<=25 quick / <=50 thorough operations: append, += (a list, the collection itself, an iterable that raises midway), c[i]=v, del c[i] for -len-1<=i<=len, clear, len, "
     "list, c[i], index, in) on a Collection (BNode or IRI head, start length 0-4 built through the API or as raw triples, noise triples and a "
